@@ -118,6 +118,7 @@ func PrepareQuery(ctx context.Context, typ Type, selectionSet *SelectionSet) err
 }
 
 func prepareQuery(ctx context.Context, typ Type, selectionSet *SelectionSet) error {
+	verifCount("prepareQuery.visit")
 	switch typ := typ.(type) {
 	case *Scalar:
 		if selectionSet != nil {
